@@ -22,7 +22,7 @@ from .core import AnchorError
 from .c12_str import Lit, Fmt, Strip, CallS, Round
 from .c12_exec import walk_value
 from .c12_model import width_bounds
-from .c12_float import BULK, SCI, FloatAnalysis, SciRun, SCI_INTERVALS, describe, inner_of, first_stage_precision
+from .c12_float import BULK, SCI, FloatAnalysis, SciRun, SCI_INTERVALS, describe, inner_of, first_stage_precision, open_tests
 
 FLOATS = (("format_float8", 8), ("format_float16", 16))
 
@@ -41,6 +41,17 @@ def _is_scientific(lf):
         return False
     nodes = list(walk_value(lf.value))
     return any(isinstance(n, CallS) and n.name in SCI for n in nodes) and not any(isinstance(n, Fmt) and isinstance(n.arg, _P) for n in nodes)
+
+
+def _verdict(ctx, A, ok, what, where, detail, witnesses, **kw):
+    """record an obligation; a failure whose witnesses (leaf, regime) lie on paths with a test the column model does not decide is an
+    analysis error, not a violation: such a path may be one that no value of the regime takes"""
+    if not ok:
+        und = sorted({t for lf, reg in witnesses for t in open_tests(lf, reg, A.param)})
+        if und:
+            ctx.error(f"{what}: not decided - the path depends on a test that is not modelled", where, {"tests": und[:3], "would report": detail})
+            return
+    ctx.check(ok, what, where, None if ok else detail, **kw)
 
 
 def _regtxt(reg):
@@ -65,36 +76,38 @@ def r1_ladder(ctx):
                 cov = A.covering(neg, k, pk)
                 where = cov[0][0].node if cov else A.fn
                 # values that round up to 10^k at that precision may go to the scientific form (they are the next decade's business)
-                notfixed = [lf for lf, reg, fm, im in cov if fm is None and reg.carry_upto < pk]
+                notfixed = [(lf, reg) for lf, reg, fm, im in cov if fm is None and reg.carry_upto < pk]
                 cov = [c for c in cov if c[2] is not None]
-                unknown = [lf for lf in notfixed if not _is_scientific(lf)]
+                unknown = [lf for lf, _ in notfixed if not _is_scientific(lf)]
                 if unknown:
                     ctx.error(f"{tag}: a path renders the value in a form that is not modelled", unknown[0].node,
                               [describe(lf.value) if lf.kind == "return" else lf.kind for lf in unknown][:4])
                     continue
                 ok = bool(cov) and not notfixed
-                ctx.check(ok, f"{tag}: rendered in fixed notation (more significant digits than the scientific form) on every path", where,
-                          None if ok else {"paths": [describe(lf.value) if lf.kind == "return" else lf.kind for lf in notfixed][:4]})
+                _verdict(ctx, A, ok, f"{tag}: rendered in fixed notation (more significant digits than the scientific form) on every path", where,
+                         {"paths": [describe(lf.value) if lf.kind == "return" else lf.kind for lf, _ in notfixed][:4]}, notfixed)
                 gen = [(lf, reg, fm, im) for lf, reg, fm, im in cov if reg.carry_upto < 0]
-                bad = []
+                bad, wit = [], []
                 for lf, reg, fm, im in gen:
                     for m, f in zip(im or [None], fm or [None]):
                         if m is None or f is None or m.width != W or f.width != W or m.corrupt or m.lossy or f.corrupt or m.P != pk or m.pad_l or m.pad_r:
                             bad.append({"rendering": describe(lf.value), "columns before justification": getattr(m, "width", None),
                                         "final columns": getattr(f, "width", None), "decimals": getattr(m, "P", None), "room for": pk, "problem": (m.corrupt or ("digits cut" if m.lossy else "")) if m else "not modelled"})
+                            wit.append((lf, reg))
                 ok = bool(gen) and not bad
-                ctx.check(ok, f"{tag}: sign + digits + point + precision (minus a stripped leading zero) = {W} exactly, i.e. maximal precision "
-                              f"and exact field width", where, None if ok else bad[:3])
+                _verdict(ctx, A, ok, f"{tag}: sign + digits + point + precision (minus a stripped leading zero) = {W} exactly, i.e. maximal precision "
+                                     f"and exact field width", where, bad[:3], wit)
                 car = [(lf, reg, fm, im) for lf, reg, fm, im in cov if reg.carry_upto >= 0]
-                bad = []
+                bad, wit = [], []
                 for lf, reg, fm, im in car:
                     for f in fm or [None]:
                         if f is None or f.width != W or f.corrupt:
                             bad.append({"rendering": describe(lf.value), "case": _regtxt(reg), "columns": getattr(f, "width", None),
                                         "problem": f.corrupt if f else "not modelled"})
+                            wit.append((lf, reg))
                 ok = not bad
-                ctx.check(ok, f"{tag}: the carry case (value rounds up to 10^{k}) still fits after zeros are stripped", where,
-                          None if ok else bad[:3], nontrivial=bool(car))
+                _verdict(ctx, A, ok, f"{tag}: the carry case (value rounds up to 10^{k}) still fits after zeros are stripped", where,
+                         bad[:3], wit, nontrivial=bool(car))
                 pts = [f for lf, reg, fm, im in cov for f in (fm or [])]
                 ok = bool(pts) and all(f.point or (f.intd >= W) for f in pts)
                 ctx.check(ok, f"{tag}: the field keeps its decimal point (a real, not an integer field)", where, nontrivial=False)
@@ -115,15 +128,16 @@ def r1b_integer_arm(ctx):
             if not A.is_fixed(lf):
                 ctx.error(f"{q}: arm `{describe(lf.value)}` prints a rounded value in a form that is not modelled", lf.node)
                 continue
-            bad = []
+            bad, wit = [], []
             for reg, fm, im in cases:
                 for f in fm or [None]:
                     if f is None or f.width != W or f.corrupt:
                         bad.append({"values": _regtxt(reg), "columns": getattr(f, "width", None), "problem": f.corrupt if f else "not modelled"})
+                        wit.append((lf, reg))
             ok = not bad
-            ctx.check(ok, f"{q}: arm `{describe(lf.value)}` on {lf.iv}: the rounded value has exactly {W} columns for every decade and rounding "
-                          f"case that reaches it (values that round to a wider integer are sent to the scientific formatter first)", lf.node,
-                      None if ok else bad[:3], key=f"C12-R1b|{q}|negative integer arm unguarded" if neg else None, nontrivial=bool(cases))
+            _verdict(ctx, A, ok, f"{q}: arm `{describe(lf.value)}` on {lf.iv}: the rounded value has exactly {W} columns for every decade and rounding "
+                                 f"case that reaches it (values that round to a wider integer are sent to the scientific formatter first)", lf.node,
+                     bad[:3], wit, key=f"C12-R1b|{q}|negative integer arm unguarded" if neg else None, nontrivial=bool(cases))
             gen = [(reg, im) for reg, fm, im in cases if reg.carry_upto < 0]
             ok = all(m.width == W and not m.lossy for reg, im in gen for m in (im or []))
             ctx.check(ok, f"{q}: arm `{describe(lf.value)}`: integer digits plus the point use all {W} columns", lf.node, nontrivial=False)
@@ -143,9 +157,10 @@ def r2b_paths(ctx):
                 cases = A.cases[id(lf)]
                 bad = [{"values": _regtxt(reg), "columns": f.width, "problem": f.corrupt} for reg, fm, im in cases for f in (fm or [])
                        if f.width != W or f.corrupt]
+                wit = [(lf, reg) for reg, fm, im in cases for f in (fm or []) if f.width != W or f.corrupt]
                 ok = not bad
-                ctx.check(ok, f"{what} yields a {W}-wide field in all {len(cases)} decade / rounding cases of the path", lf.node,
-                          None if ok else bad[:3])
+                _verdict(ctx, A, ok, f"{what} yields a {W}-wide field in all {len(cases)} decade / rounding cases of the path", lf.node,
+                         bad[:3], wit)
             else:
                 lo, hi = width_bounds(lf.value, A.helper_width)
                 if lo == W and hi == W:
